@@ -53,6 +53,9 @@ type fnExec struct {
 	depth   int
 	nret    int
 	kwCache map[StrV]string
+	unfolded map[string]bool
+	ghostUsed map[string]bool
+	nodeRefs []string // addresses of AST nodes the function holds references to (for ghost frames)
 	objs    map[string][]string // heap type -> addresses of objects the function holds direct references to
 	strLits map[string]StrV
 }
@@ -75,6 +78,7 @@ type frame struct {
 	exits   []*Exit
 	recoverV *IfV // value returned by recover() in this frame (inlined deferred closures)
 	recovered bool
+	havocRefs   []havocRef
 	cells       map[string]*ssa.Alloc // address-taken variables by name
 	sliceOrigin map[ssa.Value]PtrV // slices of local arrays (a callee may write through them)
 	top       bool // the activation of the function under contract itself
@@ -117,6 +121,9 @@ func (fx *fnExec) load(st *State, p PtrV) Val {
 	for i, l := range ls {
 		arr := fx.heapLeaf(st, p.HT+p.Path+l.Path, l.S)
 		terms[i] = sel(arr, p.Addr)
+		if l.Ref {
+			fx.g.leafRef[p.HT+p.Path+l.Path] = true
+		}
 	}
 	v := fx.g.fromLeaves(p.Elem, terms)
 	return v
@@ -132,6 +139,9 @@ func (fx *fnExec) storeVal(st *State, p PtrV, v Val) {
 		name := p.HT + p.Path + l.Path
 		arr := fx.heapLeaf(st, name, l.S)
 		st.heap[name] = fx.s.define("H!"+name, arrOf(l.S), store(arr, p.Addr, terms[i]))
+		if l.Ref {
+			fx.g.leafRef[name] = true
+		}
 	}
 }
 
@@ -512,6 +522,16 @@ func (fr *frame) enterBlock(b *ssa.BasicBlock, edges []edge) *State {
 	n := s.fresh("now", SInt)
 	s.assert(app(">=", n, st.now))
 	hst.now = n
+	// a reference held in the heap at the loop head was allocated before the loop head
+	for _, hr := range fr.havocRefs {
+		if hr.addr != "" {
+			s.assert(app("<", app("birth", sel(hst.heap[hr.leaf], hr.addr)), n))
+		} else {
+			o := sym(fmt.Sprintf("o!h%d", len(s.Items)))
+			s.assert(fmt.Sprintf("(forall ((%s Int)) (! (< (birth (select %s %s)) %s) :pattern ((select %s %s))))", o, hst.heap[hr.leaf], o, n, hst.heap[hr.leaf], o))
+		}
+	}
+	fr.havocRefs = nil
 	r := s.fresh(fmt.Sprintf("B%dh", b.Index), SBool)
 	s.assert(implies(r, st.reach)) // an arbitrary iteration is reached only through the loop entry
 	hst.reach = r
@@ -821,6 +841,43 @@ func (fr *frame) havocLoop(li *loopInfo, st *State) {
 			}
 		}
 	}
+	// ghost state of nodes: any iteration may build nodes or finish a node it holds
+	ghostTouched := false
+	ghostStores := false
+	for _, b := range blocks {
+		for _, in := range b.Instrs {
+			switch x := in.(type) {
+			case *ssa.Store:
+				if pt, ok := x.Addr.Type().Underlying().(*types.Pointer); ok {
+					_ = pt
+				}
+				if root := addrRoot(x.Addr); root != nil {
+					if rp, ok := root.Type().Underlying().(*types.Pointer); ok && fx.g.isNodeHeapType(fx.g.heapTypeName(rp.Elem())) {
+						ghostTouched = true
+						if al, isAlloc := root.(*ssa.Alloc); !isAlloc || !li.blocks[al.Block()] {
+							ghostStores = true // an existing node is finished in place: nothing is known about which
+						}
+					}
+				}
+			case ssa.CallInstruction:
+				cc := x.Common()
+				if callee := cc.StaticCallee(); callee != nil {
+					if c2 := fx.g.contractFor(callee); c2 != nil && buildsNodes(c2) {
+						ghostTouched = true
+					}
+				} else if _, isPar := cc.Value.(*ssa.Parameter); isPar {
+					ghostTouched = true
+				}
+			}
+		}
+	}
+	if ghostTouched {
+		var touched []string
+		if ghostStores {
+			touched = fx.nodeRefs
+		}
+		fx.havocGhost(st, entryNow, touched)
+	}
 	done := map[string]bool{}
 	// whole-array havocs first
 	// a leaf havocked "except current-or-fresh" by every writer keeps the frame axiom; any plain
@@ -836,6 +893,11 @@ func (fr *frame) havocLoop(li *loopInfo, st *State) {
 			} else {
 				exc[t.leaf] = t.except
 			}
+		}
+	}
+	for _, t := range targets {
+		if fx.g.leafRef[t.leaf] {
+			fr.havocRefs = append(fr.havocRefs, havocRef{t.leaf, t.addr})
 		}
 	}
 	for _, t := range targets {
@@ -1077,3 +1139,5 @@ func (fr *frame) loopContract(li *loopInfo) *LoopContract {
 	}
 	return m
 }
+
+type havocRef struct{ leaf, addr string }
